@@ -1,9 +1,95 @@
-"""C04 — main module (parts: c04_*.py are merged automatically)."""
+"""C04 — no call sequence corrupts memory, breaks the allocator contract or a variable."""
+import os, re, random
+import apigen, vlib
+from genlib import *
 LEVEL = "proof"
-LEAN_MODULES = []
+LEAN_MODULES = ["MpirProofs.Props.C04"]
 THEOREMS = []
-TRUSTED = []
-ASSUMPTIONS = []
-LEVEL_TEXT = 'Lean theorems: object well-formedness and allocator-ledger invariants are preserved by every modelled operation over arbitrary histories (induction over the op list), and values are independent of allocation history; every TMP_MARK/TMP_FREE skeleton extracted from the source is balanced. The implementation is monitored over generated histories with a recording allocator (exact sizes, red zones, leak ledger) and an ASan/UBSan build.'
-LEVEL_NOTE = 'Memory safety of code below the object abstraction (Toom scratch, FFT buffers, doprnt) is bounded sanitizer exploration, not proof.'
-PLACEHOLDER = True
+TRUSTED = ["run-time monitors on the C side: recording allocator (exact old size on realloc/free, red zones, leak ledger), well-formedness check of every pool object after every call, ASan+UBSan build",
+           "life-cycle/ledger model lean/Mpir/Model/Life.lean mirrors mpz/init.c, init2.c, realloc.c, realloc2.c, set.c, clear.c (tied by correspondence on value and _mp_alloc)"]
+ASSUMPTIONS = ["memory safety of code below the object abstraction is bounded sanitizer exploration over generated histories, not proof",
+               "mpz_random*, mpn_random*, mpf_random2, mpz_array_init are excluded as the property says"]
+RULE = ("histories over a pool of 6 mpz / 3 mpq / 3 mpf variables: life-cycle histories (set/init2/realloc2 incl. truncation to zero) followed exactly by the Lean ledger model, "
+        "and API-call histories (functions drawn from the table generated from mpir.h, ~35% aliased arguments) executed on two pools — one generously allocated, one pre-shrunk to the minimum "
+        "before every call — whose values must agree after every call; distinct = distinct histories")
+LEVEL_TEXT = ("Lean theorems: the life-cycle/ledger model keeps every object well formed and the ledger consistent over arbitrary operation histories (induction over the op list), never hands a wrong "
+              "size to realloc/free, holds no block after clearing everything, and realloc2 changes a value only by clearing it when it no longer fits. The implementation is monitored over generated "
+              "histories of all public functions with a recording allocator, a well-formedness check after every call, a twin pool with minimal allocations (allocation-history independence) and an ASan/UBSan build.")
+LEVEL_NOTE = "Memory safety of code below the object abstraction (Toom scratch, FFT buffers, doprnt) is bounded sanitizer exploration, not proof."
+
+SKIP = re.compile(r"divexact|jacobi|legendre|remove|prime|miller|sizeinbase|set_num|set_den|mpq_set_ui|mpq_set_si|canonicalize|mpq_set_d$|trial_division|mpq_inv|get_d")
+
+def lifecycle(rng):
+    yield "@reset"
+    for _ in range(rng.randrange(5, 40)):
+        k = rng.randrange(6); c = rng.random()
+        if c < 0.4: yield "@setz %x %s" % (k, hx(apigen.fz(rng, big=rng.random() < 0.1)))
+        elif c < 0.55: yield "@init2 %x %x" % (k, rng.choice([0, 1, 63, 64, 65, 128, 1000, rng.randrange(0, 700)]))
+        elif c < 0.85: yield "@realloc2 %x %x" % (k, rng.choice([0, 1, 63, 64, 65, 128, 129, 192, 1000, rng.randrange(0, 700)]))
+        else: yield "@getz %x" % k
+    yield "@done"
+
+def calls(rng, table, n):
+    yield "@reset"
+    for k in range(6): yield "@setz %x %s" % (k, hx(apigen.fz(rng, big=rng.random() < 0.15)))
+    for k in range(3):
+        nn, dd = apigen.fq(rng); yield "@setq %x %s %s" % (k, hx(nn), hx(dd))
+    for k in range(3):
+        p, s, e, l = apigen.ff(rng); yield "@setf %x %x %s %s %s" % (k, p, hx(s), hx(e), vec(l))
+    cnt = {"z": 6, "q": 3, "f": 3}
+    for _ in range(n):
+        name, sig, ret = rng.choice(table)
+        if SKIP.search(name): continue
+        toks = apigen.gen_args(rng, name, sig)
+        used_ptr = {"z": set(), "q": set(), "f": set()}
+        args = []
+        prev = {"z": [], "q": [], "f": []}
+        ok = True
+        for i, c in enumerate(sig):
+            if c in "ZQF":
+                kind = c.lower(); free = [s for s in range(cnt[kind]) if s not in used_ptr[kind]]
+                if not free: ok = False; break
+                s = rng.choice(free); used_ptr[kind].add(s); prev[kind].append(s); args.append("%x" % s)
+            elif c in "zqf":
+                kind = c
+                if prev[kind] and rng.random() < 0.35: s = rng.choice(prev[kind])    # alias an earlier argument (output or input)
+                else: s = rng.randrange(cnt[kind])
+                prev[kind].append(s); args.append("%x" % s)
+            else: args.append(toks[i][0])
+        if ok: yield "@call %s %s" % (sbytes(name), " ".join(args))
+        if rng.random() < 0.1: yield "@seed %x" % rng.randrange(1, 100)
+    yield "@done"
+
+def gen_ops(rng, tier, ctx=None):
+    build = ctx.build if ctx else vlib.REPO
+    table, _ = apigen.table(build)
+    nl, nc = (300, 400) if tier == "quick" else (3000, 6000)
+    for _ in range(nl): yield from lifecycle(rng)
+    for _ in range(nc): yield from calls(rng, table, rng.randrange(5, 60))
+
+def nontrivial(line):
+    return line if line.startswith("@call") or line.startswith("@realloc2") else None
+
+def extra(ctx, cov):
+    """the same kind of histories on an ASan+UBSan build of the working tree: any sanitizer report is a violation"""
+    build = vlib.get_build("asan"); exe = vlib.get_harness(build, "asan")
+    rng = random.Random("C04-asan-%d" % ctx.seed)
+    table, _ = apigen.table(build)
+    n = 250 if ctx.tier == "quick" else 4000
+    lines = []
+    for _ in range(n): lines += list(calls(rng, table, rng.randrange(5, 60)))
+    env = {"ASAN_OPTIONS": "detect_leaks=0:abort_on_error=0:allocator_may_return_null=1", "UBSAN_OPTIONS": "print_stacktrace=1:halt_on_error=1"}
+    rc, out, err = vlib.run_stream(exe, lines, env=env)
+    cov["asan_history_ops"] = len(lines); cov["asan_exit"] = rc
+    bad = [i for i, o in enumerate(out) if o not in ("0", "ok") and not re.match(r"^-?[0-9a-f]+( -?[0-9a-f]+| \[[0-9a-f,]*\])*$", o)]
+    if rc == 0 and len(out) == len(lines) and not bad: return []
+    k = bad[0] if bad else len(out)
+    # replay = the history containing line k
+    start = max(i for i in range(min(k, len(lines) - 1) + 1) if lines[i] == "@reset")
+    path = os.path.join(vlib.VERIF, "replay", "C04-asan-%d.ops" % ctx.seed)
+    os.makedirs(os.path.dirname(path), exist_ok=True)
+    with open(path, "w") as f:
+        f.write("# ASan/UBSan build: harness rc=%d, answers %d of %d\n" % (rc, len(out), len(lines)))
+        f.write("".join("# " + l + "\n" for l in err.split("\n")[:80]))
+        f.write("\n".join(lines[start:k + 1]) + "\n")
+    return [("sanitizer report at op %s: %s" % (lines[k] if k < len(lines) else "?", (err.strip().split("\n") or [""])[0][:300]), path)]
